@@ -15,7 +15,9 @@ in a small state/exception monad `M`.  Results distinguish
            below 0, pop of an empty options/group stack, nil unit, slice bounds,
 * `fuel`   a loop ran out of its explicit fuel.
 
-`Lemmas/Parser.lean` proves that `fault` and `fuel` are unreachable (`Props.C10.parse_total`).
+`Props.C10.parse_total` (`Props/C10Parser.lean`, lemmas in `Lemmas/Parser*.lean`) proves that `fault` and
+`fuel` are unreachable.  The large Go functions are split into one definition per branch (`bb…`, `gn…`,
+`cond…`, `groupOpen…`, `cs…`, `count…`, `quant…`, `step…`) so that each can be specified on its own.
 
 Reused models: `Model/Class.lean` (every class operation: `addRange`, `addRanges`,
 `addNegativeRanges`, `addCategories`, `canonicalize`, `addLowercase`, `addCaseEquivalences`, `Copy`),
